@@ -89,6 +89,25 @@ type World struct {
 	// results depend on it, so moving calls of PURE functions to compile time
 	// (ConstExpr) does not disturb them.
 	seq int
+	// kept: the argument slices Va received, retained as a callee may, with their
+	// rendering at call time. A slice handed to a callee is the callee's: the
+	// library must not write to it afterwards (say, by reusing it for the next call).
+	kept       [][]interface{}
+	keptRender []string
+}
+
+// checkKept journals a record when an argument slice retained from an earlier call
+// no longer holds what it held then (the reference world never produces one).
+func (w *World) checkKept() {
+	for i, k := range w.kept {
+		if k == nil {
+			continue
+		}
+		if now := renderArgs(k); now != w.keptRender[i] {
+			w.Journal = append(w.Journal, CallRec{Phase: w.Phase, Name: "!arguments-retained-by-an-earlier-Va-call-were-overwritten", Args: w.keptRender[i] + " -> " + now})
+			w.kept[i] = nil
+		}
+	}
 }
 
 var pureFns = map[string]bool{"CP": true, "CN": true, "Nest": true, "CL": true, "Tup": true, "PtrM": true, "Ff": true, "CI": true, "CS": true, "CB": true, "C64": true, "OpA": true, "OpB": true}
@@ -117,12 +136,17 @@ func (w *World) enter(name string, args ...interface{}) (idx int, ret string) {
 	if w.Quiet {
 		return 0, ""
 	}
+	w.checkKept()
 	pos := len(w.Journal)
 	idx = w.seq
 	if !pureFns[name] {
 		w.seq++
 	}
 	ra := renderArgs(args)
+	if name == "Va" && len(args) > 0 && len(w.kept) < 32 {
+		w.kept = append(w.kept, args)
+		w.keptRender = append(w.keptRender, ra)
+	}
 	w.Journal = append(w.Journal, CallRec{Phase: w.Phase, Name: name, Args: ra})
 	kind := ""
 	for _, f := range w.faults {
@@ -266,6 +290,8 @@ type Env struct {
 	Ob2 interface{}
 	// Pm: a pointer to a map.
 	Pm *map[string]int
+	Mi map[interface{}]int
+	Av interface{}
 	// EmbP is an embedded pointer that is nil: PromV is promoted from it.
 	*EmbP
 	// Lvl (float64) is declared BEFORE the embedded struct whose Lvl (int) it shadows.
@@ -456,6 +482,12 @@ func (e Env) An(a, b interface{}) int {
 	return small(r) + e.w.salt(idx)
 }
 
+// OpS and OpI overload an arithmetic operator for two strings / two ints (C02
+// probes with literal operands: the overload, not the built-in meaning, is what
+// both the optimised and the unoptimised program must compute). Pure, not journalled.
+func (e Env) OpS(a, b string) string { return a + "/" + b }
+func (e Env) OpI(a, b int) int       { return a*100 + b }
+
 // OpA and OpB are candidates for operator overloading: both accept two *Obj.
 func (e Env) OpA(a, b *Obj) int {
 	_, _ = e.w.enter("OpA", a, b)
@@ -595,6 +627,13 @@ func BuildEnv(w *World, d *EnvData) *Env {
 	e.Ob2 = localObj(d.B, "ob2")
 	pm := map[string]int{"k1": d.A, "zz": 1}
 	e.Pm = &pm
+	// Mi: one number under keys of several widths (and a string key); Av: a struct
+	// VALUE behind interface{} that holds pointers (a failing operation on it must
+	// not put their addresses into its error).
+	e.Mi = map[interface{}]int{int8(7): 1, int64(7): 2, float64(7): 3, uint8(7): 4, "k": 5}
+	if e.O != nil {
+		e.Av = *e.O
+	}
 	e.Lvl = float64(d.D%3) + 0.5
 	e.Emb = Emb{Lvl: d.D % 3, EmbV: d.C}
 	e.Info = d.P != d.Q
@@ -661,10 +700,10 @@ func (e *Env) AsRep(rep string) interface{} {
 			"P": e.P, "Q": e.Q, "S": e.S, "T": e.T, "Re": e.Re,
 			"Xs": e.Xs, "Ys": e.Ys, "Ss": e.Ss, "Mp": e.Mp, "O": e.O, "On": e.On, "Any": e.Any,
 			"Fn": e.Fn, "Objs": e.Objs,
-			"CP": e.CP, "CN": e.CN, "O2": e.O2, "Ob2": e.Ob2, "Nest": e.Nest, "Pm": e.Pm, "Lvl": e.Lvl, "EmbV": e.EmbV, "Info": e.Info, "Index": e.Index, "info": e.Info, "index": e.Index, "CL": e.CL, "Tup": e.Tup, "PtrM": e.PtrM,
+			"CP": e.CP, "CN": e.CN, "O2": e.O2, "Ob2": e.Ob2, "Nest": e.Nest, "Pm": e.Pm, "Mi": e.Mi, "Av": e.Av, "Lvl": e.Lvl, "EmbV": e.EmbV, "Info": e.Info, "Index": e.Index, "info": e.Info, "index": e.Index, "CL": e.CL, "Tup": e.Tup, "PtrM": e.PtrM,
 			"U8": e.U8, "U16": e.U16, "I8": e.I8, "I64": e.I64, "F64": e.F64, "F32": e.F32, "Ff": e.Ff,
 			"F1": e.F1, "F2": e.F2, "G0": e.G0, "P1": e.P1, "S1": e.S1, "Mk": e.Mk, "Va": e.Va,
-			"An": e.An, "OpA": e.OpA, "OpB": e.OpB, "C64": e.C64, "CI": e.CI, "CS": e.CS, "CB": e.CB,
+			"An": e.An, "OpA": e.OpA, "OpB": e.OpB, "OpS": e.OpS, "OpI": e.OpI, "C64": e.C64, "CI": e.CI, "CS": e.CS, "CB": e.CB,
 		}
 	}
 	panic("unknown env representation " + rep)
